@@ -14,7 +14,8 @@ PROPERTY_ID = "C07"
 LEVEL = "fault_enumeration"
 RULE = ("Scenario = 2..5 real instances on one simulated link (mixed single/split socket layouts), 1..6 services of 1..3 types, "
         "browsers started before, during and after registrations, a timeline of register / update / unregister / close at random "
-        "virtual times over ~20 s, and an application-style service-info lookup (3 s) spawned from every Added callback. Each "
+        "virtual times over ~20 s (optionally a late browser started 0.2..1.05 x the cached pointer TTL later, i.e. minutes to more "
+        "than an hour, when SRV/TXT/address records have expired and the pointer is stale or gone), and an application-style service-info lookup (3 s) spawned from every Added callback. Each "
         "scenario is first run loss-free (uniform 0..100 ms per-receiver delay hence reordering, 0..20 % duplication, the "
         "library's own seeded jitter); its N transmitted datagrams are numbered; then it is re-run with identical seeds once per "
         "chosen k with datagram k dropped - for every receiver or for one receiver (quick: a stratified sample of k; thorough: "
